@@ -183,6 +183,20 @@ def gen(rng, kind, tier):
             opts["refine_args"] = {"vmin": None, "vmax": None}
         elif r < 0.6:
             opts["refine_args"] = {"least_squares_params": {"max_nfev": 30}, "tolerance": 1e-9}
+        if f["grid"]["family"] == "cart" and rng.random() < 0.3:
+            # round 7 (C15_20): the same picture on a grid whose spacing and origin are not dyadic numbers (cells of 0.3
+            # starting at 0.7): every length of the request is expressed in that unit
+            hh, oo = float(rng.choice([0.3, 0.7, 1.3])), float(rng.choice([0.7, -3.1, 11.9]))
+            nn = f["grid"]["shape"][0]
+            f["grid"]["bounds"] = [[oo, oo + hh * nn] for _ in range(dim)]
+            for d in f["droplets"]:
+                d["pos"] = [oo + hh * x for x in d["pos"]]
+                d["radius"] *= hh
+                d["width"] *= hh
+            if "interface_width" in opts:
+                opts["interface_width"] *= hh
+            if isinstance(opts.get("minimal_radius"), float):
+                opts["minimal_radius"] *= hh
         return {"field": f, "opts": opts, "schedule": sched, "num_processes": nproc, "sched_seed": int(rng.integers(1 << 30))}
     if kind == "storage":
         dim = 2 if rng.random() < 0.75 else 3
